@@ -197,7 +197,12 @@ def _create_files(  # noqa: C901, PLR0912, PLR0913
                     else []
                 )
                 for (entry, _), info in zip(created, infos):
+                    # NOTE: executable entries are only made so afterwards (see
+                    # apply()), this stat does not show it yet
+                    isexec = bool(entry.meta and entry.meta.isexec)
                     entry.meta = Meta.from_info(info, fs.protocol)
+                    if isexec:
+                        entry.meta.isexec = True
                     index.add(entry)
 
     # FIXME should return new index
